@@ -10,7 +10,7 @@ COQ_IMPORTS = ["Diag"]
 COQ_FN = "Diag.run_case"
 IMPL = "c18_impl.py"
 IMPL_JOBS = 8
-RULE = ("five case families. filter: line lists assembled from segments (complete runs of each of the three boilerplate patterns, "
+RULE = ("six case families. filter: line lists assembled from segments (complete runs of each of the three boilerplate patterns, "
         "partial runs = proper prefixes / one element replaced / out of order, at every position incl. the end of input, foreign "
         "lines incl. ones containing the short needles 'reraise'/'value' and the marker texts) plus uniformly random words over the "
         "line alphabet (exhaustive up to length 4-5 in the thorough tier). chain: d = 1..50 (thorough: ..300) awaiting tasks, a "
@@ -26,6 +26,8 @@ RULE = ("five case families. filter: line lists assembled from segments (complet
         "is one of 26 shapes hostile to string formatting (tuples of length 0/1/2/3, nested, strings with % / {} / quotes / line breaks, "
         "300-character strings, lists, dicts, None, computed futures, objects with a multi-line repr) or a generated nest of them, crossed "
         "with the cells that hold a value (quick: 18 representative cells, thorough: all 37); generated trees carry generated payloads. "
+        "shared: the failed future several observers look at is not a task - an ErrorFuture, a batch item whose flush called set_error, "
+        "a FutureBase given set_error from outside, a lazy Future whose provider raises - holding the error a failed task chain ended with (chains as in observe); observer sequences as in observe. "
         "distinct = different case tree; non-trivial = filter: >= 1 complete and >= 1 partial run; chain: depth >= 2; observe: >= 2 observers; stack: depth "
         ">= 2; repr: every cell / tree with >= 1 nested object")
 TRUSTED = ["regular expressions that read status words back out of str()/repr()/dump() output (harness/impl/c18_impl.py parse_summary) "
@@ -237,6 +239,66 @@ def exhaustive_observe():
                 out.append(mk_observe([("MPass", "HAwait")], {"BRaise": [{"n": 1}]}, drv, [a, b], exhaustive=True))
         for t in itertools.product(OBSERVER_SHAPES[:5], repeat=3):
             out.append(mk_observe([], {"BRaise": [{"n": 0}]}, drv, list(t), exhaustive=True, fresh_caller=False))
+    return out
+
+
+# --------------------------------------------------------------------------- generators: shared non-task future
+FKINDS = ["KErrorFuture", "KItem", "KSetError", "KLazy"]
+FKIND_NAMES = {"KErrorFuture": "ErrorFuture", "KItem": "batch-item-set_error", "KSetError": "FutureBase-set_error",
+               "KLazy": "lazy-Future-provider-raises"}
+
+
+def EOfTask(modes, bottom):
+    return {"EOfTask": [[{"": [a, h]} for a, h in modes], bottom]}
+
+
+def mk_shared(fk, src, drv, observers, **meta):
+    """The failed future every observer looks at is not a task: kind fk, holding the exception src
+    (EOfTask: what a failed task chain ended with)."""
+    m = {"family": "shared", "pre_yields": 1, "shapes": []}
+    m.update(meta)
+    return {"tree": {"CShared": [fk, src, drv, [[{"": [h, "true" if c else "false"]} for h, c in o] for o in observers]]},
+            "meta": m}
+
+
+def src_kind(src):
+    return src if isinstance(src, str) else next(iter(src))
+
+
+def gen_shared(rng, tier, malformed):
+    quick = tier == "quick"
+    fk = rng.choice(FKINDS)
+    r = rng.random()
+    if r < 0.7:
+        d = rng.choice([1, 1, 2, 2, 3, 4, rng.randrange(1, 9 if quick else 25)])
+        ms = [(rng.choice(MODES[:5]) if malformed else rng.choice(["MPass"] * 6 + ["MReraise"] * 2 + ["MRaiseE", "MLater"]),
+               "HSync" if rng.random() < 0.2 else "HAwait") for _ in range(d - 1)]
+        q = rng.random()
+        bottom = ({"BRaise": [{"n": rng.choice([0, 1, 1, 2])}]} if q < 0.75 else "BErrorFuture" if q < 0.9
+                  else {"BPrepared": [{"n": rng.choice([0, 1])}]})
+        src = EOfTask(ms, bottom)
+    else:
+        # the error of a task that failed at once, or deep below
+        d = rng.choice([1, rng.randrange(2, 13 if quick else 41)])
+        src = EOfTask([("MPass", "HAwait")] * (d - 1), {"BRaise": [{"n": rng.choice([0, 1])}]})
+    n = rng.choice([1, 2, 2, 2, 3, 3, 4, 6])
+    obs = [gen_observer(rng, malformed) for _ in range(n)]
+    return mk_shared(fk, src, "HAwait" if rng.random() < 0.35 else "HSync", obs, malformed=malformed,
+                     pre_yields=rng.choice([0, 1, 1, 2]), precompute=rng.random() < 0.2,
+                     sync_via=[rng.choice(["value", "call"]) for _ in range(rng.choice([1, 2]))],
+                     fresh_caller=rng.random() < 0.7)
+
+
+def exhaustive_shared():
+    """Every kind x every error source x every ordered pair of observer shapes, from a plain caller and from a task."""
+    out = []
+    srcs = [EOfTask([("MPass", "HAwait")], {"BRaise": [{"n": 1}]}), EOfTask([], "BErrorFuture"), EOfTask([("MRaiseE", "HSync")], {"BPrepared": [{"n": 0}]})]
+    for fk in FKINDS:
+        for src in srcs:
+            for drv in ("HSync", "HAwait"):
+                for a in OBSERVER_SHAPES[:6]:
+                    for b in OBSERVER_SHAPES[:6]:
+                        out.append(mk_shared(fk, src, drv, [a, b], exhaustive=True))
     return out
 
 
@@ -718,6 +780,10 @@ def gen_cases(rng, tier):
     if quick:
         cs += payload_cell_cases(QUICK_PAYLOAD_CELLS, PAYLOADS)
     cs += [gen_payload_cell(rng) for _ in range(60 if quick else 1200)]
+    # the kind of the failed future several observers share (drawn last: the older families keep their PRNG stream)
+    cs += [gen_shared(rng, tier, rng.random() < 0.2) for _ in range(90 if quick else 900)]
+    if not quick:
+        cs += exhaustive_shared()
     return cs
 
 
@@ -765,6 +831,14 @@ CORPUS = [
     mk_observe([("MPass", "HAwait")], {"BRaise": [{"n": 0}]}, "HSync", [[], [], []], sync_via=["value", "call"]),
     # ... two tasks awaiting the same failed dependency one after the other inside a task, then that task itself
     mk_observe([], {"BRaise": [{"n": 1}]}, "HAwait", [[("HAwait", False)], [("HAwait", False)], []]),
+    # the failed future that two sibling tasks await one after the other is not a task: an ErrorFuture made
+    # from the error a failed task ended with (a negative cache), then the caller itself looks
+    mk_shared("KErrorFuture", EOfTask([], {"BRaise": [{"n": 0}]}), "HSync", [[("HAwait", False)], [("HAwait", False)], []]),
+    # ... a batch item whose flush stored that error, awaited by two tasks inside one task
+    mk_shared("KItem", EOfTask([("MPass", "HAwait")], {"BRaise": [{"n": 1}]}), "HAwait", [[("HAwait", False)], [("HAwait", False)]]),
+    # ... a lazy Future whose provider raises it, a future given set_error() from outside; an instance prepared elsewhere
+    mk_shared("KLazy", EOfTask([], {"BRaise": [{"n": 1}]}), "HSync", [[("HSync", False)], [("HAwait", True)], []], sync_via=["call"]),
+    mk_shared("KSetError", EOfTask([("MLater", "HAwait")], {"BPrepared": [{"n": 0}]}), "HSync", [[("HAwait", False)], [("HAwait", False), ("HSync", False)]]),
     mk_stack([]),
     mk_stack(["ByParent"] * 3),
     mk_stack(["ByParent", "ByHelper", "BySync", "Pre", "ByParent"]),
@@ -890,6 +964,98 @@ def entry_task(e):
     return None
 
 
+SRC_NAMES = {"EOfTask": "error-of-a-failed-task"}
+
+
+def expected_shared(src):
+    """Reading of the statement: the frames below the observer's own chain, i.e. the ones the error had when
+    the shared future received it (None: the task the error is taken from did not fail)."""
+    k = src_kind(src)
+    if k == "EOfTask":
+        w = expected_chain(src["EOfTask"][0], src["EOfTask"][1])
+        return None if w is None else w[1:]
+    raise ValueError(k)
+
+
+def observer_findings(fs, observers, per, want_f, pre, what, optional=()):
+    """Clause chain-one-frame-per-level for several observers of one failed future: every observer -- the first
+    and each later one -- catches its own chain (one frame per reader level from the catching level down)
+    followed by the frames want_f the error had when the future received it, and no frame of another observer.
+    want_f None: the future did not fail.  optional: plain-function frames that may or may not be shown."""
+    kinds = [observer_kind(o) for o in observers]
+    for k, o in enumerate(observers):
+        ob = per[k] if k < len(per) else {"raised": False}
+        nth = "first-observation" if k == 0 else "later-observation"
+        if want_f is None:
+            if ob.get("raised"):
+                fs.append(dict(clause="chain-one-frame-per-level", site=pre + ":exception-after-swallow",
+                               msg="observer %d saw an exception although a level of the observed task swallowed it" % k))
+            continue
+        if not ob.get("raised"):
+            fs.append(dict(clause="chain-one-frame-per-level", site=pre + ":no-exception-reached-observer:%s" % nth,
+                           msg="observer %d (%s) looked at the failed future and saw no exception" % (k, kinds[k])))
+            continue
+        if ob.get("exc_type") != "Boom":
+            fs.append(dict(clause="chain-one-frame-per-level", site=pre + ":wrong-exception-type:%s" % ob.get("exc_type"), msg="observer %d saw %s" % (k, ob.get("exc_type"))))
+        r = len(o)
+        cl = catching_level(o)
+        own = (["caller_frame"] if cl is None else []) + ["rdr_%d_%d" % (k, j) for j in range(cl or 0, r)]
+        want = [(n, 1, 1) for n in own] + want_f
+        uf = ob["user_frames"]
+        # frames that belong to another observer of the same failed task: none of them is in this observer's call chain
+        leaked, rest, seen_caller = {}, [], False
+        for n in uf:
+            m = re.match(r"^rdr_(\d+)_(\d+)$", n)
+            if m and int(m.group(1)) != k:
+                k2, j2 = int(m.group(1)), int(m.group(2))
+                c2 = catching_level(observers[k2]) if k2 < len(observers) else None
+                kind = ("reader-that-handled-it" if c2 == j2 else "reader-that-let-it-propagate" if (c2 is None or j2 > c2)
+                        else "reader-that-never-saw-it")
+                leaked.setdefault(kind, []).append(n)
+            elif n == "caller_frame" and (seen_caller or cl is not None):
+                leaked.setdefault("driver-that-caught-it", []).append(n)
+            elif n in optional:
+                continue      # a plain function between the reader and the error: the statement asks for the task levels
+            else:
+                seen_caller = seen_caller or n == "caller_frame"
+                rest.append(n)
+        for kind, names in sorted(leaked.items()):
+            fs.append(dict(clause="chain-one-frame-per-level", site=pre + ":frames-of-earlier-observer:%s" % kind,
+                           msg="observer %d (%s) of a failed %s that %d observers looked at before (%s) caught a traceback with the user frames %s; "
+                               "%s belong to another observer (%s), not to its call chain %s"
+                               % (k, kinds[k], what, k, ", ".join(kinds[:k]), uf[:30], sorted(set(names))[:6], kind, [n for n, _, _ in want][:30])))
+        runs = [(n, len(list(g))) for n, g in itertools.groupby(rest)]
+        names = [n for n, _ in runs]
+        wnames = [n for n, _, _ in want]
+        if names != wnames:
+            missing = [n for n in wnames if n not in names]
+            if missing:
+                site = pre + ":missing-%s-frame" % ("level" if missing[0].startswith("lvl") else "reader" if missing[0].startswith("rdr")
+                                                     else "raising" if missing[0].startswith(("hlp", "prep")) else "caller")
+            elif sorted(names) == sorted(wnames):
+                site = pre + ":frames-out-of-call-order"
+            elif names[-1] != wnames[-1]:
+                site = pre + ":does-not-end-at-raising-frame"
+            else:
+                site = pre + ":extra-frames"
+            fs.append(dict(clause="chain-one-frame-per-level", site=site + ":" + nth,
+                           msg="observer %d (%s): user frames %s; expected its own chain and one frame per level of the failed task in call order: %s"
+                               % (k, kinds[k], uf[:40], wnames[:40])))
+        else:
+            for (n, cnt), (_, lo, hi) in zip(runs, want):
+                if not (lo <= cnt <= hi):
+                    fs.append(dict(clause="chain-one-frame-per-level", site=pre + ":frame-repeated:" + nth,
+                                   msg="observer %d (%s): frame %s appears %d times (allowed %d..%d) in %s" % (k, kinds[k], n, cnt, lo, hi, uf[:40])))
+                    break
+        for f in ob.get("formats", []):
+            if not f["ok"]:
+                fs.append(dict(clause="format-error-total", site="format_error:observed-again:%s:%s" % (f["variant"].split(",")[0], f["exc"]),
+                               msg="format_error raised %s (%s) for the error observer %d caught" % (f["exc"], f["variant"], k)))
+            elif not f["has_text"]:
+                fs.append(dict(clause="format-error-total", site="format_error:observed-again:%s:empty" % f["variant"].split(",")[0],
+                               msg="format_error returned nothing (%s) for the error observer %d caught" % (f["variant"], k)))
+
+
 # --------------------------------------------------------------------------- monitors
 def monitors(c, io, build):
     fam = family(c)
@@ -977,77 +1143,12 @@ def monitors(c, io, build):
     elif fam == "CObserve":
         ms, bottom, drv, observers = c["tree"]["CObserve"]
         want_f = expected_chain(ms, bottom)
-        per = obs.get("observers") or []
-        kinds = [observer_kind(o) for o in observers]
-        for k, o in enumerate(observers):
-            ob = per[k] if k < len(per) else {"raised": False}
-            nth = "first-observation" if k == 0 else "later-observation"
-            if want_f is None:
-                if ob.get("raised"):
-                    fs.append(dict(clause="chain-one-frame-per-level", site="observe:exception-after-swallow",
-                                   msg="observer %d saw an exception although a level of the observed task swallowed it" % k))
-                continue
-            if not ob.get("raised"):
-                fs.append(dict(clause="chain-one-frame-per-level", site="observe:no-exception-reached-observer:%s" % nth,
-                               msg="observer %d (%s) looked at the failed task and saw no exception" % (k, kinds[k])))
-                continue
-            if ob.get("exc_type") != "Boom":
-                fs.append(dict(clause="chain-one-frame-per-level", site="observe:wrong-exception-type:%s" % ob.get("exc_type"), msg="observer %d saw %s" % (k, ob.get("exc_type"))))
-            r = len(o)
-            cl = catching_level(o)
-            own = (["caller_frame"] if cl is None else []) + ["rdr_%d_%d" % (k, j) for j in range(cl or 0, r)]
-            want = [(n, 1, 1) for n in own] + want_f[1:]
-            uf = ob["user_frames"]
-            # frames that belong to another observer of the same failed task: none of them is in this observer's call chain
-            leaked, rest, seen_caller = {}, [], False
-            for n in uf:
-                m = re.match(r"^rdr_(\d+)_(\d+)$", n)
-                if m and int(m.group(1)) != k:
-                    k2, j2 = int(m.group(1)), int(m.group(2))
-                    c2 = catching_level(observers[k2]) if k2 < len(observers) else None
-                    kind = ("reader-that-handled-it" if c2 == j2 else "reader-that-let-it-propagate" if (c2 is None or j2 > c2)
-                            else "reader-that-never-saw-it")
-                    leaked.setdefault(kind, []).append(n)
-                elif n == "caller_frame" and (seen_caller or cl is not None):
-                    leaked.setdefault("driver-that-caught-it", []).append(n)
-                else:
-                    seen_caller = seen_caller or n == "caller_frame"
-                    rest.append(n)
-            for kind, names in sorted(leaked.items()):
-                fs.append(dict(clause="chain-one-frame-per-level", site="observe:frames-of-earlier-observer:%s" % kind,
-                               msg="observer %d (%s) of a failed task that %d observers looked at before (%s) caught a traceback with the user frames %s; "
-                                   "%s belong to another observer (%s), not to its call chain %s"
-                                   % (k, kinds[k], k, ", ".join(kinds[:k]), uf[:30], sorted(set(names))[:6], kind, [n for n, _, _ in want][:30])))
-            runs = [(n, len(list(g))) for n, g in itertools.groupby(rest)]
-            names = [n for n, _ in runs]
-            wnames = [n for n, _, _ in want]
-            if names != wnames:
-                missing = [n for n in wnames if n not in names]
-                if missing:
-                    site = "observe:missing-%s-frame" % ("level" if missing[0].startswith("lvl") else "reader" if missing[0].startswith("rdr")
-                                                         else "raising" if missing[0].startswith(("hlp", "prep")) else "caller")
-                elif sorted(names) == sorted(wnames):
-                    site = "observe:frames-out-of-call-order"
-                elif names[-1] != wnames[-1]:
-                    site = "observe:does-not-end-at-raising-frame"
-                else:
-                    site = "observe:extra-frames"
-                fs.append(dict(clause="chain-one-frame-per-level", site=site + ":" + nth,
-                               msg="observer %d (%s): user frames %s; expected its own chain and one frame per level of the failed task in call order: %s"
-                                   % (k, kinds[k], uf[:40], wnames[:40])))
-            else:
-                for (n, cnt), (_, lo, hi) in zip(runs, want):
-                    if not (lo <= cnt <= hi):
-                        fs.append(dict(clause="chain-one-frame-per-level", site="observe:frame-repeated:" + nth,
-                                       msg="observer %d (%s): frame %s appears %d times (allowed %d..%d) in %s" % (k, kinds[k], n, cnt, lo, hi, uf[:40])))
-                        break
-            for f in ob.get("formats", []):
-                if not f["ok"]:
-                    fs.append(dict(clause="format-error-total", site="format_error:observed-again:%s:%s" % (f["variant"].split(",")[0], f["exc"]),
-                                   msg="format_error raised %s (%s) for the error observer %d caught" % (f["exc"], f["variant"], k)))
-                elif not f["has_text"]:
-                    fs.append(dict(clause="format-error-total", site="format_error:observed-again:%s:empty" % f["variant"].split(",")[0],
-                                   msg="format_error returned nothing (%s) for the error observer %d caught" % (f["variant"], k)))
+        observer_findings(fs, observers, obs.get("observers") or [], None if want_f is None else want_f[1:], "observe", "task")
+    elif fam == "CShared":
+        fk, src, drv, observers = c["tree"]["CShared"]
+        want_f = expected_shared(src)
+        observer_findings(fs, observers, obs.get("observers") or [], want_f, "shared:%s:%s" % (FKIND_NAMES[fk], SRC_NAMES[src_kind(src)]),
+                          "%s holding %s" % (FKIND_NAMES[fk], SRC_NAMES[src_kind(src)]), optional=("provider",))
     elif fam == "CStack":
         s0, cs, srcs = stack_levels(c)
         want = expected_stack(cs)
@@ -1202,7 +1303,7 @@ def nontrivial(c):
         return len(t[0]) + 1 >= 2
     if fam == "CStack":
         return len(t[1]) >= 2
-    if fam == "CObserve":
+    if fam in ("CObserve", "CShared"):
         return len(t[3]) >= 2
     if fam == "CRepr":
         return bool((c.get("meta") or {}).get("cell")) or isinstance(t[0], dict) and next(iter(t[0])) in ("OTask", "OBatch", "OSched") and len(json.dumps(t[0])) > 60
@@ -1215,6 +1316,7 @@ def distribution(cases):
          "stack_sourceless": {"none": 0, "outermost-only": 0, "below-outermost": 0, "calling-task": 0, "all": 0}, "stack_nosrc_how": {}, "stack_call_site": {},
          "observe_observers": {}, "observe_kinds": {}, "observe_driver": {}, "observe_reader_how": {},
          "observe_second_look_after": {}, "observe_chain_depth": {},
+         "shared_kind": {}, "shared_error_source": {}, "shared_observers": {}, "shared_second_look_after": {},
          "repr_cells": 0, "repr_generated": {}, "repr_payload_cells": {}, "repr_top_payload": {}, "repr_payload_role": {},
          "repr_payloads_in_trees": {}, "repr_long_payload_cut_in_dump": 0, "malformed": 0}
 
@@ -1262,6 +1364,16 @@ def distribution(cases):
             for o in observers:
                 for h, _c in observer_levels(o):
                     d["observe_reader_how"][h] = d["observe_reader_how"].get(h, 0) + 1
+        elif fam == "CShared":
+            fk, src, drv, observers = t
+            d["shared_kind"][FKIND_NAMES[fk]] = d["shared_kind"].get(FKIND_NAMES[fk], 0) + 1
+            sk = SRC_NAMES[src_kind(src)]
+            d["shared_error_source"][sk] = d["shared_error_source"].get(sk, 0) + 1
+            nb = str(len(observers)) if len(observers) <= 4 else "5+"
+            d["shared_observers"][nb] = d["shared_observers"].get(nb, 0) + 1
+            ks = [observer_kind(o) for o in observers]
+            for x in set(ks[:-1]):
+                d["shared_second_look_after"][x] = d["shared_second_look_after"].get(x, 0) + 1
         elif fam == "CStack":
             s0, kinds, srcs = stack_levels(c)
             b = bucket(len(kinds))
@@ -1353,6 +1465,34 @@ def shrink(c):
         plain_meta = dict(m2, pre_yields=1, precompute=False, sync_via=["value"], fresh_caller=True)
         if plain_meta != m2:
             yield mk(meta=plain_meta)
+    elif fam == "CShared":
+        fk, src, drv, observers = t
+        m2 = dict(meta, shapes=[])
+
+        def mk(fk=fk, src=src, drv=drv, observers=observers, meta=m2):
+            return {"tree": {"CShared": [fk, src, drv, observers]}, "meta": meta}
+        for i in range(len(observers)):
+            yield mk(observers=observers[:i] + observers[i + 1:])
+        for i, o in enumerate(observers):
+            for j in range(len(o)):
+                yield mk(observers=observers[:i] + [o[:j] + o[j + 1:]] + observers[i + 1:])
+        if src_kind(src) == "EOfTask":
+            ms, b = src["EOfTask"]
+            for i in range(len(ms)):
+                yield mk(src={"EOfTask": [ms[:i] + ms[i + 1:], b]})
+            if b != {"BRaise": [{"n": 0}]}:
+                yield mk(src={"EOfTask": [ms, {"BRaise": [{"n": 0}]}]})
+        if fk != "KErrorFuture":
+            yield mk(fk="KErrorFuture")
+        for i, o in enumerate(observers):
+            for j, x in enumerate(o):
+                if x[""][0] != "HAwait":
+                    yield mk(observers=observers[:i] + [o[:j] + [{"": ["HAwait", x[""][1]]}] + o[j + 1:]] + observers[i + 1:])
+        if drv != "HSync":
+            yield mk(drv="HSync")
+        plain_meta = dict(m2, pre_yields=1, precompute=False, sync_via=["value"], fresh_caller=True)
+        if plain_meta != m2:
+            yield mk(meta=plain_meta)
     elif fam == "CStack":
         s0, cs = t
         n = len(cs)
@@ -1434,7 +1574,7 @@ def model_input(c):
 EXPLANATION = ("Coq theorems about Diag.v (filter_traceback rewriting, traceback gluing, creator chain, str/repr/dump totality) are "
                "re-checked; Diag.run_case is evaluated with vm_compute on every case and compared with asynq (pure and Cython "
                "builds): filter_traceback output, hide-aware user frames of the traceback reaching the caller and of the traceback every one of several "
-               "observers of the same failed task catches, the entries of "
+               "observers of the same failed task - or failed non-task future (ErrorFuture, batch item, set_error, lazy Future) - catches, the entries of "
                "format_asynq_stack(), and the status words and the payload shown, parsed out of str()/repr()/dump(), for payloads of every shape "
                "(tuples of any length, %-/{}-strings, containers, None, nested futures, long and multi-line reprs). Monitors encode the statement directly: "
                "no call raises, no dump line degrades to the n/a text, the text of a computed object contains repr of what it holds.")
